@@ -85,6 +85,12 @@ contract(
            [SMONO, SRANGE, 'result[0] == 1 - rexp(-X[0] / r)']),
         sq('gaussian/base', 'gaussian', {'r': 'real', 'x0': 'real', 'base': 'real'}, ['r > 0', 'base > 1'], [SMONO, SRANGE]),
         sq('exponential/base', 'exponential', {'r': 'real', 'x0': 'real', 'base': 'real'}, ['r > 0', 'base > 1'], [SMONO, SRANGE]),
+        sq('logistic/base,keep_sign', 'logistic', {'r': 'real', 'x0': 'real', 'base': 'real', 'keep_sign': ('const', True)},
+           ['r > 0', 'base > 1'], [SMONO, SRANGE]),
+        sq('gaussian/base,keep_sign', 'gaussian', {'r': 'real', 'base': 'real', 'keep_sign': ('const', True)}, ['r > 0', 'base > 1'],
+           [SMONO, SRANGE]),
+        sq('exponential/base,keep_sign', 'exponential', {'r': 'real', 'base': 'real', 'keep_sign': ('const', True)}, ['r > 0', 'base > 1'],
+           [SMONO, SRANGE]),
         sq('gaussian/keep_sign', 'gaussian', {'r': 'real', 'keep_sign': ('const', True)}, ['r > 0'], [SMONO]),
         sq('exponential/keep_sign', 'exponential', {'r': 'real', 'keep_sign': ('const', True)}, ['r > 0'], [SMONO]),
         sq('gaussian/quantile', 'gaussian', {'cover_quantile': 'real'}, ['0 < cover_quantile < 1', 'NpQuantile(X) > 0'], [SMONO, SRANGE]),
